@@ -315,6 +315,45 @@ def toNnxMetadata {α : Type} (o : BoxObj α) : Meta × BoxObj α :=
   let d := (o.attrs.erase "names") ++ [("sharding", (o.attrs.get? "names").getD .none)]
   (d, o)
 
+/-! ### `NNXMeta` under Linen's lifted transforms (`add_axis` / `remove_axis`) -/
+
+/-- `list.insert(k, a)` for `0 ≤ k` -/
+def insertAt {σ : Type} : List σ → Nat → σ → List σ
+  | l, 0, a => a :: l
+  | [], _ + 1, a => [a]
+  | x :: l, k + 1, a => x :: insertAt l k a
+
+/-- the index `NNXMeta.add_axis` inserts at: a negative index counts from the end of the *new* tuple -/
+def addIndex (len : Nat) (index : Int) : Nat :=
+  if index < 0 then (index + len + 1).toNat else index.toNat
+
+/-- the new `sharding` tuple: pad with `None` up to the index, then insert the axis name -/
+def insertAxis (names : List (Option String)) (index : Int) (axis : String) : List (Option String) :=
+  let k := addIndex names.length index
+  insertAt (names ++ List.replicate (k - names.length) none) k (some axis)
+
+/-- `names.pop(index)` (Python indexing) with the assertion that the popped name is the axis name -/
+def removeAxis (names : List (Option String)) (index : Int) (axis : String) : Except Err (List (Option String)) :=
+  let j : Int := if index < 0 then index + names.length else index
+  if j < 0 ∨ (names.length : Int) ≤ j then .error .keyError          -- IndexError: pop index out of range
+  else if names[j.toNat]? = some (some axis) then .ok (names.eraseIdx j.toNat)
+  else .error .typeMismatch                                          -- the assert
+
+/-- `NNXMeta.add_axis(index, {PARTITION_NAME: axis})` on the box's metadata: a `sharding` tuple — the empty
+one included — gains the axis name; a Variable without a `sharding` annotation is left as it is -/
+def nnxMetaAddAxis (md : Meta) (index : Int) (axis : String) : Meta :=
+  match md.get? "sharding" with
+  | some (.names ns) => setAssoc md "sharding" (.names (insertAxis ns index axis))
+  | _ => md
+
+/-- `NNXMeta.remove_axis(index, {PARTITION_NAME: axis})` -/
+def nnxMetaRemoveAxis (md : Meta) (index : Int) (axis : String) : Except Err Meta :=
+  match md.get? "sharding" with
+  | some (.names ns) => do
+      let ns' ← removeAxis ns index axis
+      pure (setAssoc md "sharding" (.names ns'))
+  | _ => .ok md
+
 /-! ## the two transpositions -/
 
 /-- collections in the order `jax.tree_util.tree_map_with_path` rebuilds a dict: sorted keys -/
